@@ -16,4 +16,5 @@ func genAll(repo string) {
 	genImageBlk(repo)
 	genBlockParse(repo)
 	genLabelIndex(repo)
+	genLocks(repo)
 }
